@@ -1,6 +1,7 @@
 import BevySyncModel.Proofs.CompBound
 import BevySyncModel.Proofs.AssetBound
 import BevySyncModel.Proofs.CompPot
+import BevySyncModel.Proofs.CompLive
 import BevySyncModel.Proofs.AssetPot
 import BevySyncModel.Proofs.MatBound
 import BevySyncModel.Proofs.EntBound
@@ -51,6 +52,31 @@ theorem C09_comp_calm_silent (pt : V → V → V) (s : State V) (as : List (Act 
   have h1 := comp_traffic_bounded (ra := ra) pt s as hn hc
   rw [h0] at h1
   simpa using h1
+
+/-- **message flow stops within a bounded number of frames.** From *any* state of the component slice — reachable or not,
+whatever is queued, in flight or half applied, any number of clients, both relay modes, any patch function — three fair
+rounds without application writes (host: detect, react, poll every channel, run every closure; then every client the
+same) end in a quiescent state. -/
+theorem C09_quiescent_within_three_rounds (pt : V → V → V) (s : State V) :
+    Quiescent (round (ra := ra) pt (round (ra := ra) pt (round (ra := ra) pt s))) :=
+  three_rounds_quiescent pt s
+
+/-- … and those rounds are a schedule of the model's own actions: from any state a write-free schedule reaches quiescence
+(by `C09_comp_quiet` it sends no more than the potential of the state it starts from) -/
+theorem C09_quiescence_reached (pt : V → V → V) (s : State V) :
+    ∃ as : List (Act V), (∀ a ∈ as, isWrite a = false) ∧ Quiescent (run ra false pt s as) :=
+  quiescence_reached pt s
+
+/-- non-vacuity: a state with conflicting values queued, in flight and half applied everywhere is not quiescent, is not
+quiescent after one round either, and is after three -/
+example :
+    let s0 : State Nat :=
+      { host := { val := some 1, dirty := true, queue := [4] }, hdefer := [(2, 9)],
+        clients := [{ id := 1, p := { val := some 2, dirty := true, token := true, queue := [5, 6] }, defer := [7], up := [8], down := [3] },
+                    { id := 2, p := { val := none, dirty := true }, up := [1, 2], down := [2, 1] }] }
+    (decide (Quiescent s0) = false) ∧ (decide (Quiescent (round (ra := false) replace s0)) = false) ∧
+      Quiescent (round (ra := false) replace (round (ra := false) replace (round (ra := false) replace s0))) := by
+  refine ⟨by decide, by decide, by decide⟩
 
 /-- **entity life.** `N + 1` messages per `SyncMark` insertion or application despawn at most, whichever peers act. -/
 theorem C09_ent_traffic_bounded (s : Ent.State) (as : List Ent.Act) (hn : (s.clients.map (·.id)).Nodup)
